@@ -237,6 +237,17 @@ func (x *Exec) toHeapTerm(v Value) Term {
 	}
 }
 
+// nameHeap replaces a large heap term by a fresh constant defined equal to it (terms are strings: this keeps
+// chains of stores linear instead of exponential).
+func (x *Exec) nameHeap(st *State, key string, t Term) Term {
+	if len(t.S) < 160 {
+		return t
+	}
+	n := x.fresh("H_"+key, t.Sort)
+	st.pc = append(st.pc, Hyp{Eq(n, t), "def:" + key})
+	return n
+}
+
 func (x *Exec) writeElem(st *State, s SliceV, idx Term, v Value) {
 	if stt, ok := s.Elem.Underlying().(*types.Struct); ok {
 		sv := v.(StructV)
@@ -245,13 +256,13 @@ func (x *Exec) writeElem(st *State, s SliceV, idx Term, v Value) {
 			key := "st_" + typeName(s.Elem) + "." + fd.Name()
 			es := scalarSort(fd.Type())
 			h := x.heap(st, key, es)
-			st.heaps[key] = Store(h, s.Ref, Store(Select(h, s.Ref), Add(s.Off, idx), x.toHeapTerm(sv.F[fd.Name()])))
+			st.heaps[key] = x.nameHeap(st, key, Store(h, s.Ref, Store(Select(h, s.Ref), Add(s.Off, idx), x.toHeapTerm(sv.F[fd.Name()]))))
 		}
 		return
 	}
 	key, es := heapKey(s.Elem)
 	h := x.heap(st, key, es)
-	st.heaps[key] = Store(h, s.Ref, Store(Select(h, s.Ref), Add(s.Off, idx), x.toHeapTerm(v)))
+	st.heaps[key] = x.nameHeap(st, key, Store(h, s.Ref, Store(Select(h, s.Ref), Add(s.Off, idx), x.toHeapTerm(v))))
 }
 
 // seqOf gives the spec-level sequence denoted by a slice (its window, re-based at 0).
@@ -849,7 +860,7 @@ func (x *Exec) writeField(st *State, p PtrV, field string, v Value) {
 			key := typeName(p.Elem) + "." + field
 			es := scalarSort(fd.Type())
 			h := x.fheap(st, key, es)
-			st.fheaps[key] = Store(h, p.Ref, x.toHeapTerm(v))
+			st.fheaps[key] = x.nameHeap(st, key, Store(h, p.Ref, x.toHeapTerm(v)))
 			return
 		}
 	}
@@ -939,14 +950,14 @@ func (x *Exec) initZero(st *State, s SliceV) {
 			es := scalarSort(fd.Type())
 			h := x.heap(st, key, es)
 			z := x.toHeapTerm(x.zero(st, fd.Type()))
-			st.heaps[key] = Store(h, s.Ref, Term{"((as const " + ArrSort(es) + ") " + z.S + ")", ArrSort(es)})
+			st.heaps[key] = x.nameHeap(st, key, Store(h, s.Ref, Term{"((as const " + ArrSort(es) + ") " + z.S + ")", ArrSort(es)}))
 		}
 		return
 	}
 	key, es := heapKey(s.Elem)
 	h := x.heap(st, key, es)
 	z := x.toHeapTerm(x.zero(st, s.Elem))
-	st.heaps[key] = Store(h, s.Ref, Term{"((as const " + ArrSort(es) + ") " + z.S + ")", ArrSort(es)})
+	st.heaps[key] = x.nameHeap(st, key, Store(h, s.Ref, Term{"((as const " + ArrSort(es) + ") " + z.S + ")", ArrSort(es)}))
 }
 
 // convertAssign adapts a value to a destination type (untyped constants into floats etc.).
